@@ -39,7 +39,10 @@ theorem build_wf (opt : WOpts) (hok : WOptsOK opt) (es : List (Bytes × Bytes))
                 -- every data block lies before the metaindex block
                 ∧ (∀ d ∈ t.blocks, d.handle.offset + d.handle.size + 5 ≤ t.metaHandle.offset)
                 -- the first data block (if any) starts at offset 0
-                ∧ (∀ d, t.blocks[0]? = some d → d.handle.offset = 0))) := by
+                ∧ (∀ d, t.blocks[0]? = some d → d.handle.offset = 0)
+                -- for the bridge to the independent decoder: blocks parse under `Spec.Format.parseBlock`,
+                -- handles and footer are canonical encodings
+                ∧ SpecExtras t)) := by
   obtain ⟨tp, r, hb, hcase⟩ := build_step hok es hs
   refine ⟨tp, r, hb, ?_⟩
   intro hsmall
@@ -65,7 +68,8 @@ theorem build_wf_of_ok (opt : WOpts) (hok : WOptsOK opt) (es : List (Bytes × By
         ∧ (∀ (i : Nat) (di dj : DBlock), t.blocks[i]? = some di → t.blocks[i+1]? = some dj →
              di.handle.offset + di.handle.size + 5 ≤ dj.handle.offset)
         ∧ (∀ d ∈ t.blocks, d.handle.offset + d.handle.size + 5 ≤ t.metaHandle.offset)
-        ∧ (∀ d, t.blocks[0]? = some d → d.handle.offset = 0) := by
+        ∧ (∀ d, t.blocks[0]? = some d → d.handle.offset = 0)
+        ∧ SpecExtras t := by
   obtain ⟨t1, hadd, _⟩ := TableBuilder.build_ok_inv hb
   have hs : Spec.StrictSorted opt.cmp es := TableBuilder.addAll_ok_sorted hadd
   obtain ⟨tp', hb', _, hlen, _⟩ := C13_sink_core opt [] es tp n hb
@@ -92,7 +96,8 @@ theorem build_any_sink_wf (opt : WOpts) (hok : WOptsOK opt) (sched : List SinkRe
         ∧ (∀ (i : Nat) (di dj : DBlock), t.blocks[i]? = some di → t.blocks[i+1]? = some dj →
              di.handle.offset + di.handle.size + 5 ≤ dj.handle.offset)
         ∧ (∀ d ∈ t.blocks, d.handle.offset + d.handle.size + 5 ≤ t.metaHandle.offset)
-        ∧ (∀ d, t.blocks[0]? = some d → d.handle.offset = 0) := by
+        ∧ (∀ d, t.blocks[0]? = some d → d.handle.offset = 0)
+        ∧ SpecExtras t := by
   obtain ⟨tp, hbp, hrecv, hlen, _⟩ := C13_sink_core opt sched es t0 n hb
   obtain ⟨_, _, t, h1, h2⟩ := build_wf_of_ok opt hok es tp n hbp hn hsz
   exact ⟨hlen (by omega), t, by rw [h1, hrecv], h2⟩
